@@ -1,15 +1,15 @@
 """C12: see DESIGN.md section 4 C12."""
-from _ccmon import standard_plan, floor_msgs, COMMON_ASSUMPTIONS, EVOLVE_NOTE
+from _ccmon import standard_plan, floor_msgs, COMMON_ASSUMPTIONS, EVOLVE_NOTE, FAULT_NOTE
 
 LEVEL = "exploration"
 RULE = 'histories are generated per shard from (seed, index) by harness/src/gen.rs (weights of mode C12: finalizer / destructor / action scripts that call collect_cycles, Cc::new, try_unwrap, finalize_again; automatic collection in half of the histories) plus the directed corpus harness/src/directed.rs; each is executed against the real crate with all oracles on, followed by an epilogue that releases everything and collects until quiet. distinct = distinct expanded operation lists (FNV hash); non-trivial iff a collection was requested from a callback (a no-op request under a running collection, or a real nested collection under a plain drop)'
-RULE += EVOLVE_NOTE
+RULE += EVOLVE_NOTE + FAULT_NOTE
 ASSUMPTIONS = COMMON_ASSUMPTIONS
 FLOORS = {'is_tracing_samples': 100000, 'nested_noop_collects': 100, 'nested_real_collects': 100}
 
 
 def plan(ctx):
-    return standard_plan(ctx, "C12", mode="C12")
+    return standard_plan(ctx, "C12", mode="C12", after_faults=True)
 
 
 def floors(ctx, evaluations, distinct, counters, sets):
